@@ -3,6 +3,7 @@
 From Coq Require Import List ZArith Bool String Lia Floats.PrimFloat.
 From LBFGSB Require Import Base.Res Base.Hoare Base.FloatOrd Model.SF Model.FloatVec Model.Driver Generated.StopTests Generated.Consts
   Proofs.DriverReport Proofs.DriverReportRun Proofs.DriverFuel.
+From LBFGSB Require Generated.Base.
 Import ListNotations.
 Open Scope Z_scope.
 
@@ -67,6 +68,17 @@ Theorem C04_control_flow_from_source :
     [("projgr(x, grad, lb, ub) <= _gtol", msg_string MPgtol); ("istate.nit >= maxiter", msg_string MMaxiter); ("sf.nfev >= maxfun", msg_string MMaxfun)]%string /\
   nth 13 line_search_args_src ""%string = "min(maxls, maxfun - sf.nfev)"%string.
 Proof. repeat split; reflexivity. Qed.
+
+(* the projected-gradient norm and the boxedness test of the model ARE the functions of base.py, translated on every run from
+   their source (NumPy vector expressions -> the element-wise operations of Model/FloatVec.v), and they are called with the
+   arguments the model passes *)
+Theorem C04_projgr_from_source : forall x g lb ub, Generated.Base.projgr x g lb ub = projgr x g lb ub.
+Proof. reflexivity. Qed.
+Theorem C04_is_boxed_from_source : forall c : cfg, negb (Generated.Base.is_any_inf [lb c; ub c]) = is_boxed c.
+Proof. intros c. unfold Generated.Base.is_any_inf, is_boxed. cbn [existsb]. rewrite orb_false_r. reflexivity. Qed.
+Theorem C04_leaf_call_sites_from_source :
+  Generated.Base.is_boxed_src = "not is_any_inf([lb, ub])"%string /\ Generated.Base.projgr_call_sites_src = ["projgr(x, grad, lb, ub)"%string].
+Proof. split; reflexivity. Qed.
 
 Print Assumptions C04_report.
 Print Assumptions C04_fuel_suffices.
